@@ -39,7 +39,9 @@ type LvScenario struct {
 var lvAlpha = map[string][]string{
 	"plain":       {"", "k1", "k2", "k3", "k4", "k5", "k6"},
 	"adversarial": {"", "a!", "a@", "aa", "b!", "b@", "bb"}, // '@' and bytes below it: raw "key@ts" order differs from CompareKeys order
-	"long":        {"", strings.Repeat("p", 300) + "1", strings.Repeat("p", 300) + "2", strings.Repeat("p", 300) + "3", strings.Repeat("p", 300) + "4", strings.Repeat("p", 300) + "5", strings.Repeat("p", 300) + "6"},
+	// variable length, prefix pairs whose next byte sorts below '@' (used by the random runs only)
+	"prefix": {"", "a", "a!", "a#", "a@", "a@1", "aa"},
+	"long":   {"", strings.Repeat("p", 300) + "1", strings.Repeat("p", 300) + "2", strings.Repeat("p", 300) + "3", strings.Repeat("p", 300) + "4", strings.Repeat("p", 300) + "5", strings.Repeat("p", 300) + "6"},
 }
 
 func lvEntry(alpha string, v LvVer) types.Entry {
@@ -156,7 +158,7 @@ type LkEvent struct {
 }
 
 func randomLv(r *rand.Rand) ([]LkEvent, map[string]any, string) {
-	alpha := pick(r, "plain", "adversarial", "long")
+	alpha := pick(r, "plain", "adversarial", "long", "prefix", "prefix")
 	K, T := 2+r.Intn(5), 3+r.Intn(7)
 	l0, ratio := 1+r.Intn(3), 1+r.Intn(3)
 	block := pick(r, 1, 30, 80, 400, 4096)
@@ -187,10 +189,17 @@ func randomLv(r *rand.Rand) ([]LkEvent, map[string]any, string) {
 		}
 	}
 	rounds := 2 + r.Intn(6)
+	narrow := r.Intn(2) == 0
+	if narrow {
+		rounds += 4
+	}
 	for i := 0; i < rounds; i++ {
 		// flush a table
 		var vs []LvVer
 		n := 1 + r.Intn(K*2)
+		if narrow {
+			n = 1 + r.Intn(3) // narrow tables: partial overlaps, tables left behind by a compaction
+		}
 		seen := map[[2]int]bool{}
 		for j := 0; j < n; j++ {
 			id := [2]int{1 + r.Intn(K), 1 + r.Intn(T)}
